@@ -110,6 +110,28 @@ func group[T Opcoder](opcodes []opcode[T]) ([]maskGroup[T], error) {
 	return groups, nil
 }
 
+// conflicts informs if there is a sequence of bytes matching both o1 and o2.
+//
+// Such a sequence exists if and only if the opcodes agree on every bit which
+// is significant (set in the mask) for both of them. The bits significant for
+// just one of the opcodes can always be chosen to suit that opcode. If one of
+// the opcodes is shorter, only its length is compared as the longer sequence
+// of bytes matches the shorter opcode as well.
+func conflicts(o1 Opcode, o2 Opcode) bool {
+	l := len(o1.Mask)
+	if len(o2.Mask) < l {
+		l = len(o2.Mask)
+	}
+
+	for i := 0; i < l; i++ {
+		if (o1.Bytes[i]^o2.Bytes[i])&o1.Mask[i]&o2.Mask[i] != 0 {
+			return false
+		}
+	}
+
+	return true
+}
+
 // checkConflicts asserts that no instruction conflicts with one another.
 //
 // The non-conflicting check is to be full n^2 algorithm. Please note that we
@@ -131,9 +153,10 @@ func checkConflicts[T Opcoder](groups []maskGroup[T]) error {
 			}
 
 			for _, o := range gj.opcodes {
-				opc, ok := gi.matchInstruction(o.opcode.Bytes)
-				if ok {
-					return duplicateOpcodeErr(o, opc)
+				for _, opc := range gi.opcodes {
+					if conflicts(o.opcode, opc.opcode) {
+						return duplicateOpcodeErr(o, opc)
+					}
 				}
 			}
 		}
